@@ -381,8 +381,12 @@ def check_history(case):
                                 tag = " [stored WITH the data set's sos/eos]"
                             return "%s: %s/%s.pt on disk is %s, expected %s%s (was %s)" % (what, kind, u0["name"], _short(u1[kind]), _short(uw[kind]), tag, _short(u0[kind]))
                     elif not any(same(u1[kind], a) for a in allowed[(u0["name"], kind)]):
-                        return "%s raised, and left %s/%s.pt as %s which is neither what was stored (%s) nor its documented repair" % (
-                            what, kind, u0["name"], _short(u1[kind]), _short(u0[kind]))
+                        tag = ""
+                        if kind == "ref" and (cfg.get("sos") is not None or cfg.get("eos") is not None) and any(
+                                len(a["s"]) in (1, 2) and same(u1[kind], spec_wrap(a, cfg.get("sos"), cfg.get("eos"), False)) for a in allowed[(u0["name"], kind)]):
+                            tag = " [stored WITH the data set's sos/eos]"
+                        return "%s raised, and left %s/%s.pt as %s which is neither what was stored (%s) nor its documented repair%s" % (
+                            what, kind, u0["name"], _short(u1[kind]), _short(u0[kind]), tag)
             state = disk
     return None
 
@@ -631,15 +635,17 @@ def _dedupe(gen):
 
 def hist_bound(ctx):
     if ctx.quick:
-        return dict(cross_T=[2], rows_T=[0, 1, 2, 3], two_rows_T=[2], pair_T=[(2, 2), (2, 3)], triple_T=[2], nrand=0, fixes=[0, 1, 2], cfg_T=[2])
-    return dict(cross_T=[0, 1, 2, 3], rows_T=[0, 1, 2, 3, 4, 5], two_rows_T=[1, 2, 3], pair_T=[(2, 2), (2, 3), (0, 1), (3, 1)], triple_T=[1, 2], nrand=30000, fixes=[0, 1, 2, 3, 5], cfg_T=[1, 2])
+        return dict(cross_T=[2], rows_T=[0, 1, 2, 3], two_rows_T=[2], pair_T=[(2, 2), (2, 3)], triple_T=[2], nrand=0, fixes=[0, 1, 2], cfg_T=[2], cfg_feats=("feat:ok",),
+                    other_feats=("feat:f64", "feat:1d"))
+    return dict(cross_T=[1, 2, 3], rows_T=[0, 1, 2, 3, 4, 5], two_rows_T=[1, 2, 3], pair_T=[(2, 2), (2, 3), (0, 1)], triple_T=[1, 2], nrand=10000, fixes=[0, 1, 2, 3], cfg_T=[2],
+                cfg_feats=("feat:ok", "feat:f64"), other_feats=("feat:f64", "feat:i64", "feat:w1", "feat:1d", "feat:3d"))
 
 
 def _all_dirs(ctx, b, for_cfg=False):
     th = not ctx.quick
     for T in (b["cfg_T"] if for_cfg else b["cross_T"]):
         for tags, utts in dirs_single_cross(T, th):
-            if not for_cfg or tags[0] == "feat:ok" or not ctx.quick:
+            if not for_cfg or tags[0] in b["cfg_feats"]:
                 yield tags, utts
     if for_cfg:
         for (t1, f1, a1, r1), (t2, f2, a2, r2) in itertools.product(small_menu(2), small_menu(3)):
@@ -679,14 +685,21 @@ def cases_val_iff(ctx):
     return _dedupe(gen())
 
 
+def _single_feat_ok(tags, utts):
+    return len(utts) == 1 and (tags[0] == "feat:ok" or not tags[0].startswith("feat:"))
+
+
 def cases_fix_sticks(ctx):
     b = hist_bound(ctx)
 
     def gen():
         for tags, utts in _all_dirs(ctx, b):
-            for k in (b["fixes"] if len(utts) == 1 or not ctx.quick else [1]):
-                yield {"tags": tags, "utts": utts, "cfg": {}, "history": [k, None, k]}
-            yield {"tags": tags, "utts": utts, "cfg": {}, "history": [None, 0, 1, 2, 3, None]}  # growing tolerance
+            if _single_feat_ok(tags, utts):  # everything repairable lives here: every tolerance, and a growing one
+                for k in b["fixes"]:
+                    yield {"tags": tags, "utts": utts, "cfg": {}, "history": [k, None, k]}
+                yield {"tags": tags, "utts": utts, "cfg": {}, "history": [None, 0, 1, 2, 3, None]}
+            elif len(utts) > 1 or tags[0] in b["other_feats"]:  # feature defects are never repairable; several utterances: k = 1
+                yield {"tags": tags, "utts": utts, "cfg": {}, "history": [1, None, 1]}
         for name, cfg in CFGS.items():
             if name == "plain":
                 continue
@@ -1072,12 +1085,16 @@ def _k_load_empty(case, msg):
     return r["s"][0] == 0 and (case["sos"] is not None or case["eos"] is not None) and ("IndexError" in msg or msg.startswith("reading"))
 
 
+def _case_fix(case):
+    return None if case.get("mode") != "fix" else (1 if case.get("k") is None else case["k"])
+
+
 def _k_fix0(case, msg):
-    return case.get("mode") == "fix" and case.get("k") == 0
+    return case.get("mode") == "fix" and case.get("k") == 0 and spec_step(case["utts"], None, {})[0]
 
 
-def _rows(case):
-    for u in case["utts"]:
+def _rows(utts):
+    for u in utts:
         r = u.get("ref")
         if r and len(r["s"]) == 2 and r["s"][1] == 3:
             for i in range(r["s"][0]):
@@ -1085,12 +1102,13 @@ def _rows(case):
 
 
 def _k_rcount_emptyseg(case, msg):
-    return "rcount" in msg and "differs from the recount" in msg and any(a == b and a >= 0 for _, a, b in _rows(case)) and not _k_fix0(case, msg)
+    stored = spec_step(case["utts"], _case_fix(case), {})[1]  # what is stored when the report is made
+    return "rcount" in msg and "differs from the recount" in msg and any(a == b and a >= 0 for _, a, b in _rows(stored))
 
 
 def _k_total_tokens(case, msg):
     refs = [u["ref"] for u in case["utts"] if "ref" in u]
-    return bool(refs) and all(r["s"][0] == 0 for r in refs) and "total_tokens" in msg and not _k_fix0(case, msg)
+    return bool(refs) and all(r["s"][0] == 0 for r in refs) and "total_tokens" in msg and "differs from the recount" in msg
 
 
 _OK = sp("float32", [2, 2])
@@ -1126,11 +1144,11 @@ _finding("KF-C12-4", "C12.soseos.inverse",
          {"sos": SOS, "eos": EOS, "tokens_only": False, "cls": "spect", "junk": [], "float_hyp": False, "ref": sp("int64", [0])}, _k_load_empty)
 _finding("KF-C12-6", "C12.info.recount",
          "get-torch-spect-data-dir-info --fix 0 neither validates nor repairs: the validate flag is computed as `options.strict or options.fix`, and 0 is falsy",
-         "command line run with --fix 0 on a directory that is not already valid",
+         "command line run with --fix 0 on a directory that a strict validation rejects",
          {"tags": ["ali:i32"], "utts": [utt("u0", _OK, sp("int32", [2], [0, 0]), None)], "mode": "fix", "k": 0}, _k_fix0)
 _finding("KF-C12-7", "C12.info.recount",
          "rcount_<i> is reported as -1 ('no boundaries') as soon as one token <i> has an EMPTY segment (start == end >= 0, which validation accepts since 0.3.0) instead of adding 0 frames",
-         "some 2-D reference row has start == end >= 0",
+         "some 2-D reference row has start == end >= 0 when the report is made (stored so, or after the end was reduced to T == start)",
          {"tags": ["ref"], "utts": [utt("u0", sp("float32", [3, 2]), None, ref2([[1, 0, 3], [1, 1, 1]]))], "mode": "strict", "k": None}, _k_rcount_emptyseg)
 _finding("KF-C12-8", "C12.info.recount",
          "total_tokens is reported as -1 ('no ref/') when ref/ exists but every stored transcript is empty; the recount (sum of R) is 0",
@@ -1168,7 +1186,7 @@ def run_bounded(ctx):
                  "alignment lengths 0..T+4 x {int64,int32,uint8}; 2 utterances: all ordered pairs of single-defect utterances for (T1,T2) in %s; 3 utterances: 8^3 from a small menu, T in %s; "
                  "6 data-set configurations (sos+eos, sos, eos, tokens_only, suppress_alis [alignment-clean directories only], suppress_uttids=False) x the 1-utterance cross at T in %s%s and 8x8 2-utterance pairs%s") % (
         b["cross_T"], len(ali_variants(2, not ctx.quick)), ", bool, uint8+2, float64, int32 2-D" if not ctx.quick else "", len(ref_variants(2, not ctx.quick)),
-        ", uint8, 0-D, bool, over by 3" if not ctx.quick else "", b["rows_T"], b["two_rows_T"], b["pair_T"], b["triple_T"], b["cfg_T"], " (well-formed feature file)" if ctx.quick else "",
+        ", uint8, 0-D, bool, over by 3" if not ctx.quick else "", b["rows_T"], b["two_rows_T"], b["pair_T"], b["triple_T"], b["cfg_T"], " (feature variants %s)" % "/".join(f.split(":")[1] for f in b["cfg_feats"]),
         "; plus %d seeded random directories (1-4 utterances, T<=5, random rows/dtypes/lengths, random configuration)" % b["nrand"] if b["nrand"] else "")
     if _wanted(ctx, "C12.val.iff"):
         ctx.bounded("C12.val.iff", check_history, cases_val_iff(ctx), bound=dir_bound + "; history = one strict pass",
@@ -1182,8 +1200,9 @@ def run_bounded(ctx):
                     nontrivial=lambda c: True, chunk=128, functions=fns)
     if _wanted(ctx, "C12.fix.sticks"):
         ctx.bounded("C12.fix.sticks", check_history, cases_fix_sticks(ctx),
-                    bound=dir_bound + "; histories [k, strict, k] for k in %s (%s) and [strict, 0, 1, 2, 3, strict] (configurations: k in {0,1})%s" % (
-                        b["fixes"], "directories of 2-3 utterances: k=1 only" if ctx.quick else "all directories", "; random histories of 1-4 passes with k in {None,0..4} followed by a strict pass" if b["nrand"] else ""),
+                    bound=dir_bound + "; histories: 1-utterance directories with a well-formed feature file: [k, strict, k] for every k in %s and the growing [strict, 0, 1, 2, 3, strict]; other directories "
+                                      "(1 utterance with feature variants %s; 2-3 utterances): [1, strict, 1]; configurations: [k, strict, k] for k in {0,1}%s" % (
+                        b["fixes"], "/".join(f.split(":")[1] for f in b["other_feats"]), "; random directories: random histories of 1-4 passes with k in {strict,0..4} followed by a strict pass" if b["nrand"] else ""),
                     text="validate/fix/validate histories: a pass with tolerance k raises iff a defect is outside the documented repairable ones; otherwise the files equal the documented repairs of what was stored and nothing "
                          "else changed, the following strict pass accepts and a repeated fix changes nothing; after a raising pass every file is untouched or completely repaired",
                     nontrivial=_has_defect, chunk=128, functions=fns)
